@@ -746,6 +746,88 @@ fn constant<'tcx>(tcx: TyCtxt<'tcx>, env: TypingEnv<'tcx>, c: &Const<'tcx>) -> J
     J::Obj(out)
 }
 
+/// Typed walk over a constant allocation: arrays and tuples of integers, `&str` and function pointers (lookup tables).
+fn decode_alloc<'tcx>(
+    tcx: TyCtxt<'tcx>,
+    ty: Ty<'tcx>,
+    alloc: &mir::interpret::Allocation,
+    off: rustc_abi::Size,
+    depth: usize,
+) -> Option<J> {
+    use mir::interpret::{alloc_range, GlobalAlloc, Scalar};
+    if depth > 4 {
+        return None;
+    }
+    let env = TypingEnv::fully_monomorphized();
+    let layout = tcx.layout_of(env.as_query_input(ty)).ok()?;
+    let psize = tcx.data_layout.pointer_size();
+    match ty.kind() {
+        ty::Array(elem, len) => {
+            let n = len.try_to_target_usize(tcx)? as u64;
+            if n > 64 {
+                return None;
+            }
+            let el = tcx.layout_of(env.as_query_input(*elem)).ok()?;
+            let mut out = Vec::new();
+            for i in 0..n {
+                out.push(decode_alloc(tcx, *elem, alloc, off + el.size * i, depth + 1)?);
+            }
+            Some(J::Obj(vec![("tree".into(), jstr("array")), ("elems".into(), J::Arr(out))]))
+        }
+        ty::Tuple(tys) => {
+            let mut out = Vec::new();
+            for (i, fty) in tys.iter().enumerate() {
+                let fo = layout.fields.offset(i);
+                out.push(decode_alloc(tcx, fty, alloc, off + fo, depth + 1)?);
+            }
+            Some(J::Obj(vec![("tree".into(), jstr("tuple")), ("elems".into(), J::Arr(out))]))
+        }
+        ty::Ref(_, inner, _) if inner.is_str() => {
+            let p = alloc.read_scalar(&tcx, alloc_range(off, psize), true).ok()?;
+            let l = alloc.read_scalar(&tcx, alloc_range(off + psize, psize), false).ok()?;
+            let len = match l { Scalar::Int(si) => si.to_bits(psize) as usize, _ => return None };
+            if let Scalar::Ptr(ptr, _) = p {
+                let (prov, poff) = ptr.into_raw_parts();
+                if let Some(GlobalAlloc::Memory(a)) = tcx.try_get_global_alloc(prov.alloc_id()) {
+                    let a = a.inner();
+                    let st = poff.bytes() as usize;
+                    if st + len <= a.len() && len <= 256 {
+                        let bytes = a.inspect_with_uninit_and_ptr_outside_interpreter(st..st + len);
+                        return Some(J::Obj(vec![
+                            ("kind".into(), jstr("str")),
+                            ("value".into(), jstr(String::from_utf8_lossy(bytes).to_string())),
+                        ]));
+                    }
+                }
+            }
+            None
+        }
+        ty::FnPtr(..) => {
+            let p = alloc.read_scalar(&tcx, alloc_range(off, psize), true).ok()?;
+            if let Scalar::Ptr(ptr, _) = p {
+                let (prov, _) = ptr.into_raw_parts();
+                if let Some(GlobalAlloc::Function { instance }) = tcx.try_get_global_alloc(prov.alloc_id()) {
+                    let did = instance.def_id();
+                    return Some(J::Obj(vec![
+                        ("kind".into(), jstr("fn")),
+                        ("path".into(), jstr(tcx.def_path_str(did))),
+                        ("local".into(), J::Bool(did.is_local())),
+                    ]));
+                }
+            }
+            None
+        }
+        ty::Uint(_) | ty::Int(_) | ty::Bool | ty::Char => {
+            let s = alloc.read_scalar(&tcx, alloc_range(off, layout.size), false).ok()?;
+            if let Scalar::Int(si) = s {
+                return Some(const_value(tcx, ConstValue::Scalar(Scalar::Int(si)), ty));
+            }
+            None
+        }
+        _ => None,
+    }
+}
+
 fn const_value<'tcx>(tcx: TyCtxt<'tcx>, v: ConstValue, ty: Ty<'tcx>) -> J {
     let tys = ty_str(ty);
     match v {
@@ -827,6 +909,13 @@ fn const_value<'tcx>(tcx: TyCtxt<'tcx>, v: ConstValue, ty: Ty<'tcx>) -> J {
                         o.push(("bytes".into(), J::Arr(bytes.iter().map(|b| J::Num(*b as i128)).collect())));
                         o.push(("has_ptrs".into(), J::Bool(!a.provenance().ptrs().is_empty())));
                     }
+                    if let ty::Ref(_, inner, _) = ty.kind() {
+                        if matches!(inner.kind(), ty::Array(..) | ty::Tuple(..)) {
+                            if let Some(t) = decode_alloc(tcx, *inner, a, off, 0) {
+                                o.push(("tree".into(), t));
+                            }
+                        }
+                    }
                 }
                 Some(mir::interpret::GlobalAlloc::Static(did)) => {
                     o.push(("static".into(), jstr(tcx.def_path_str(did))));
@@ -870,6 +959,11 @@ fn const_value<'tcx>(tcx: TyCtxt<'tcx>, v: ConstValue, ty: Ty<'tcx>) -> J {
                 if start <= len && len - start <= 256 && a.provenance().ptrs().is_empty() {
                     let bytes = a.inspect_with_uninit_and_ptr_outside_interpreter(start..len);
                     o.push(("bytes".into(), J::Arr(bytes.iter().map(|b| J::Num(*b as i128)).collect())));
+                }
+                if matches!(ty.kind(), ty::Array(..) | ty::Tuple(..)) {
+                    if let Some(t) = decode_alloc(tcx, ty, a, offset, 0) {
+                        o.push(("tree".into(), t));
+                    }
                 }
             }
             J::Obj(o)
